@@ -6,12 +6,66 @@ V = '/verif'
 props = [json.loads(l) for l in open(f'{V}/properties.jsonl')]
 impl = subprocess.run([f'{V}/harness/target/release/jsv', 'list'], capture_output=True, text=True).stdout.split()
 NOTES = {
- 'C01': ("bounded-exhaustive enumeration (all strings <=7/8 over an 18-character alphabet, all token sequences <=5/6, transition cover, every 2-/3-byte UTF-8 sequence in 8 contexts, single-byte corpus edits) + proptest grammar/mutation sampling; verdict of 13 entry points vs an independent pushdown automaton and core::str::from_utf8",
+ 'C01': ("bounded-exhaustive enumeration (every string <= 7/8 over an 18-character alphabet, every token sequence <= 5/6, transition cover of numbers/literals/escapes x 143 probe characters x 4 contexts, every 2-/3-byte UTF-8 sequence in 8 contexts, single-byte corpus edits) + proptest grammar/mutation sampling (incl. large documents) + libFuzzer (thorough); verdict of all 13 entry points vs an independent pushdown automaton and core::str::from_utf8",
          "trusts harness/src/refjson.rs (RFC 8259 automaton, unit-tested) and core::str::from_utf8",
-         "PBT: bounded-exhaustive enumeration + proptest sampling, differential vs reference automaton"),
- 'C07': ("same enumerations as C01 restricted to rejected inputs, plus stream-error injection at every character of every corpus document; each reported error (variant, offset, character, span, code units) vs the reference viable-prefix recogniser",
-         "trusts the reference automaton; surrogate-error spans are read as 'within escape + following element' (DESIGN §C07)",
-         "PBT: bounded-exhaustive enumeration + proptest sampling, differential vs viable-prefix recogniser"),
+         "PBT: bounded-exhaustive enumeration + proptest sampling + coverage-guided fuzzing, differential vs reference automaton"),
+ 'C02': ("exhaustive over all 65,536 \\uXXXX units, all 1,048,576 surrogate pairs, all scalar values raw (value and key), backslash + every ASCII character; every valid document among all token sequences <= 6/7; proptest renderings of random/large trees through all 13 entry points; value read back through public accessors vs the reference decoder, every key lookup vs a linear scan",
+         "trusts the reference decoder in refjson.rs",
+         "PBT: exhaustive escape/scalar enumeration + proptest, differential vs reference decoder"),
+ 'C03': ("proptest byte vectors, corpus prefixes/edits and token sequences under all 4 option records through byte, str, counting-iterator and DecodedChar entry points (no panic, poll budget, verdict = reference); child processes parsing 11 deep-nesting families at depth 10^3..10^6 (2*10^6 thorough) inside a 128 KiB thread stack with closed-form expectations; libFuzzer (thorough)",
+         "a recursive parser/traversal cannot fit 10^5+ levels in 128 KiB; one open known finding (K01) is matched by family and signal only",
+         "PBT + fault-style deep-nesting probes in child processes; oracle = reference automaton + closed forms"),
+ 'C04': ("proptest (value x option record, incl. large values) + bounded-exhaustive product of 570 small values x ~750/3150 option records + libFuzzer (thorough): printed text accepted by the reference automaton, denotes the original tree, re-parses to an equal value, and minus insignificant whitespace equals the reference compact form",
+         "trusts refjson.rs and refprint.rs",
+         "PBT: round-trip + differential vs reference automaton/serializer"),
+ 'C05': ("every valid document among all strings <= 7/8 over the 18-character alphabet and all token sequences <= 6/7, proptest renderings with heavy whitespace (incl. large documents); code map of 6 entry points and of `parse` over UTF-16/constant character lengths == reference fragment table; span text re-parses to the fragment",
+         "trusts the reference fragment builder in refjson.rs",
+         "PBT: bounded-exhaustive + proptest, differential vs reference fragment table"),
+ 'C06': ("state-exhaustive (every entry list <= 5/6 over 2/3 keys x every operation instance x two construction routes), history-exhaustive (every history <= 4/5 over ~75 operation instances, cloned walk + fresh replay), long random histories over 85 keys, 1200-key histories (index growth to several hundred keys), 3-key histories (dozens of duplicates); after every operation: entries, result, full query battery and hook-dumped index vs a list model",
+         "trusts the Vec model in props/c06.rs and objquery.rs; remove_unique on duplicates is checked only as far as the rustdoc promises",
+         "PBT: stateful model-based testing, bounded-exhaustive + proptest histories"),
+ 'C07': ("the C01 enumerations restricted to rejected inputs + stream-error injection at every character of every corpus document: every reported error (variant, offset, character, span, code units, accessor consistency) vs the reference viable-prefix recogniser",
+         "trusts the reference automaton; surrogate-error spans are read as 'within escape + following element' (DESIGN C07)",
+         "PBT: bounded-exhaustive + proptest, differential vs viable-prefix recogniser"),
+ 'C08': ("all 1,112,064 scalars as one-character string and key, proptest values (incl. large), small-value set; six compact outputs (compact_print, to_string, Display with and without format flags, String::from, print_with(compact)) byte-equal to the reference RFC 8785 serializer",
+         "trusts refprint.rs::compact",
+         "PBT: exhaustive scalar enumeration + proptest, differential vs reference serializer"),
+ 'C09': ("RFC 8785 Appendix B and section 3.2.3 vectors; proptest isolated numbers (scaled digits <= 40/400, exact midpoints of adjacent doubles +-, integers next to midpoints, layout thresholds, exact respellings of special doubles) re-validated with exact decimal arithmetic; I-JSON trees with tricky/long-prefix keys; canonicalize/_with and Object::canonicalize/_with vs the reference canonicalizer",
+         "trusts core's float parser (re-validated per case with exact arithmetic) and the length of core's shortest digit string; last digit re-derived (closest, ties to even)",
+         "PBT: proptest + RFC vectors, differential vs independent reference implementation"),
+ 'C10': ("metamorphic: one I-JSON tree, two rewritings (whitespace, member order at every level, escapes, exact number respellings) must give identical canonical bytes; all permutations of <= 4/5 members; idempotence, fixed point, structure preserved, queries and index consistent afterwards",
+         "respellings are exact by construction (re-verified with decimal arithmetic)",
+         "PBT: metamorphic relations over proptest-generated rewritings"),
+ 'C11': ("every valid document among all token sequences <= 8/9 over 10 tokens, proptest renderings (incl. large), flexible-option documents with injected surrogate escapes, code maps over UTF-16 lengths: every array/object/key incl. duplicated and absent ones, 8 mapped lookups, get_fragment(0..n+2), volume/count, span identity; conversions Vec/Vec<Vec>/BTreeMap with a wrong-kind value or unparsable key planted at a random fragment; built-in leaf conversions",
+         "trusts the reference fragment table",
+         "PBT: bounded-exhaustive + proptest, differential vs reference fragment table"),
+ 'C12': ("every sequence of <= 5/6 string elements from {2 high, 2 low surrogate escapes, ordinary escape, raw character} as value/key/array item under all 4 option records through 6 entry points; token sequences, all strings <= 6/7 over the alphabet, transition cover, corpus edits, proptest documents with injected surrogate sequences; acceptance <=>, decoded text and code map vs the reference with flags",
+         "'accepts' is read as 'accepts exactly', following the options' rustdoc",
+         "PBT: bounded-exhaustive + proptest, differential vs reference with leniency flags"),
+ 'C13': ("proptest value x option record, limits set to w-1/w/w+1 and n-1/n/n+1 around the actual width/length of a chosen container, deep chains forcing wide indentation, bounded-exhaustive small values x option set; output byte-equal to a reference layout printer written from the rustdoc",
+         "trusts refprint.rs::print_layout as the transcription of the documented layout",
+         "PBT: proptest + bounded-exhaustive, differential vs reference printer"),
+ 'C14': ("proptest triples of a value and near-copies (== must equal equality of reference trees; reflexive, antisymmetric, transitive, cmp/partial_cmp/operators coherent, equal => same DefaultHasher hash and same byte stream to a recording Hasher), 9 construction routes for one entry list, mixed-size triples, every ordered triple over 43 small values",
+         "content = reference tree read through public accessors",
+         "PBT: algebraic laws over proptest-generated triples and construction routes"),
+ 'C15': ("all ordered pairs of the 6,175 objects with <= 3 entries over 2 keys x 9 values and of the 11,111 objects with <= 4 entries over 5 values (thorough: 41,371 objects over 7 values), wrapped variants, shuffles and single-leaf mutations of random/large values, wide objects over <= 3 keys x 4 values, objects reached through operation histories; vs 'normal forms are equal'",
+         "trusts the normal-form reference in props/c15.rs",
+         "PBT: bounded-exhaustive pairs + proptest, differential vs normal-form reference"),
+ 'C16': ("proptest instances of a derive-annotated type family covering every data-model shape the serializer implements (all integer widths at bounds, f32/f64 from random bits, Unicode, maps keyed by String/i64/i8/u8/u64/char/unit variant/newtype): round trip, shape agreement with serde_json, deserialization of serde_json's Value and text rendering; 2M/50M isolated floats",
+         "serde_json is the reference the property names; exclusions listed in DESIGN C16",
+         "PBT: round-trip + differential vs serde_json"),
+ 'C17': ("proptest values outside the known-finding classes (exact serialization model incl. duplicate collapse; Value->Value and text->Value deserialization), all number spellings with class-predicate attribution of the 4 open findings, large shapes, fixed probes",
+         "serde_json with /repo's features; open findings K02-K05 matched by machine-computed class predicates only",
+         "PBT: proptest, model + differential vs serde_json"),
+ 'C18': ("proptest serde_json values (all three number representations, private-token objects), json-syntax values of the stated domain (incl. exactly respelled special doubles), unrestricted values for the no-panic clause; a float difference is attributed to the open finding only if bit-equal to serde_json's own FromStr of that token",
+         "serde_json with /repo's features; open findings K06/K07",
+         "PBT: round-trip with exact attribution predicate"),
+ 'C19': ("3,000/30,000 generated programs: documents emitted as Rust json! invocations and as JSON text, compiled in one crate per 1,000 against the current /repo and run; a compile error of a generated program is a failure",
+         "float literals outside the 'stable' class are compared by f64 bits",
+         "PBT over programs: generate, compile, run, compare with parse of the same text"),
+ 'C20': ("the complete finite domain: 64 sets, 64x64 and 64x6 pairs in both operand orders, 6x6 kind pairs, every front/back interleaving of iteration, all renderings, Value::kind/is_kind; vs a BTreeSet model",
+         "exhaustive; renderings follow the rustdoc examples",
+         "exhaustive enumeration vs set model (PBT family, exhaustive generator)"),
 }
 DEFAULT = ("bounded-exhaustive enumeration and seeded proptest sampling against an independent reference model", "trusts the harness-side reference model", "PBT: enumeration + proptest vs reference model")
 checks = []
@@ -43,7 +97,7 @@ m = {
  "engines": [{"name": "jsv", "path": "/verif/harness", "serves_properties": [c['property_id'] for c in checks],
               "kind_free_text": "Rust binary: proptest runners with fixed seeds, rayon-parallel bounded-exhaustive enumerators, reference models; worker runs in a child process"}],
  "checks": checks,
- "not_applicable": [{"property_id": p['id'], "reason": "check not built yet in this session (planned in DESIGN.md); not claimed"} for p in props if p['id'] not in impl],
+ "not_applicable": [{"property_id": p['id'], "reason": "no check built; not claimed"} for p in props if p['id'] not in impl],
  "notes": "exit 0 = held; 1 = VIOLATION line printed; 2 = inconclusive (never used to hide a violation). VERIF_SEED feeds every random choice."
 }
 json.dump(m, open(f'{V}/MANIFEST.json', 'w'), indent=1)
